@@ -918,4 +918,571 @@ example : roundsOf (Sys.run .tracked ⟨boltOf 2, { frm := 1 }⟩
 example : roundsOf (Sys.run .tracked ⟨memOf 10 9, { frm := 5 }⟩
     [.start, .scanOpen, .put (tb 10), .scanNext, .scanNext, .scanNext, .scanNext, .scanNext, .register]).s.sent = [5, 6, 7, 8, 9, 10] := by decide
 
+/-! ### no round twice -/
+
+def Store.rounds : Store → List Nat
+  | .bolt bs => bs.map (·.1)
+  | .mem ms => ms.store.map (·.round)
+
+/-- every stored round is below n (an append of round n is chain-legal) -/
+def Store.allLt (st : Store) (n : Nat) : Prop := ∀ r ∈ st.rounds, r < n
+
+def StoreOK : Store → Prop
+  | .bolt bs => (bs.map (·.1)).Pairwise (· < ·) ∧ ∀ p ∈ bs, p.2.round = p.1
+  | .mem ms => (ms.store.map (·.round)).Pairwise (· < ·) ∧ 0 < ms.cap ∧ ms.store.length ≤ ms.cap
+
+private theorem mem_ins_above (b : Beacon) (l : List Beacon) (h : ∀ x ∈ l, x.round < b.round) : Mem.ins b l = l ++ [b] := by
+  induction l with
+  | nil => rfl
+  | cons x t ih =>
+    have h1 : ¬ b.round < x.round := by have := h x (by simp); omega
+    simp only [Mem.ins, h1, if_false, List.cons_append]
+    rw [ih (fun y hy => h y (List.mem_cons_of_mem _ hy))]
+
+/-- a chain-legal append to memdb: the new beacon goes to the end, and the oldest one is dropped when the ring is full -/
+private theorem mem_put_above (ms : MemState) (b : Beacon) (h : ∀ x ∈ ms.store, x.round < b.round) :
+    (Mem.put ms b).store = (ms.store ++ [b]).drop (ms.store.length + 1 - ms.cap) ∧ (Mem.put ms b).cap = ms.cap := by
+  have hany : ms.store.any (·.round == b.round) = false := by
+    simp only [List.any_eq_false, beq_iff_eq]
+    intro x hx; have := h x hx; omega
+  simp only [Mem.put, hany, Bool.false_eq_true, if_false, mem_ins_above b _ h]
+  constructor
+  · split
+    · simp
+    · rename_i hle
+      have : ms.store.length + 1 - ms.cap = 0 := by simp at hle; omega
+      simp [this]
+  · trivial
+
+private theorem insert_above' {α : Type} (k : Nat) (v : α) (l : List (Nat × α)) (h : ∀ p ∈ l, p.1 < k) :
+    Store.insert k v l = l ++ [(k, v)] := by
+  induction l with
+  | nil => rfl
+  | cons a t ih =>
+    obtain ⟨k', v'⟩ := a
+    have h1 : k' < k := h (k', v') (by simp)
+    have h2 : ¬ k < k' := by omega
+    have h3 : ¬ k = k' := by omega
+    simp only [Store.insert, h2, h3, if_false, List.cons_append]
+    rw [ih (fun p hp => h p (List.mem_cons_of_mem _ hp))]
+
+private theorem pairwise_snoc (l : List Nat) (y : Nat) (h : l.Pairwise (· < ·)) (hy : ∀ x ∈ l, x < y) : (l ++ [y]).Pairwise (· < ·) := by
+  rw [List.pairwise_append]
+  exact ⟨h, by simp, by simpa using hy⟩
+
+/-- a chain-legal append keeps the store well-formed, and its round is stored afterwards -/
+private theorem storeOK_put (st : Store) (b : Beacon) (h : StoreOK st) (hl : st.allLt b.round) :
+    StoreOK (st.put b) ∧ b.round ∈ (st.put b).rounds := by
+  cases st with
+  | bolt bs =>
+    have hab : ∀ p ∈ bs, p.1 < b.round := fun p hp => hl p.1 (by simp [Store.rounds]; exact ⟨p.2, hp⟩)
+    simp only [Store.put, Bolt.put, insert_above' _ _ _ hab, StoreOK, Store.rounds]
+    refine ⟨⟨?_, ?_⟩, by simp⟩
+    · simp only [List.map_append, List.map_cons, List.map_nil]
+      exact pairwise_snoc _ _ h.1 (by simpa [Store.allLt, Store.rounds] using hl)
+    · intro p hp
+      simp only [List.mem_append, List.mem_singleton] at hp
+      rcases hp with hp | rfl
+      · exact h.2 p hp
+      · rfl
+  | mem ms =>
+    have hab : ∀ x ∈ ms.store, x.round < b.round := fun x hx => hl x.round (by simp [Store.rounds]; exact ⟨x, hx, rfl⟩)
+    obtain ⟨hs, hc⟩ := mem_put_above ms b hab
+    obtain ⟨h1, h2, h3⟩ := h
+    have hd : ms.store.length + 1 - ms.cap ≤ ms.store.length := by omega
+    simp only [Store.put, StoreOK, Store.rounds, hs, hc]
+    refine ⟨⟨?_, h2, ?_⟩, ?_⟩
+    · have hp : ((ms.store ++ [b]).map (·.round)).Pairwise (· < ·) := by
+        simp only [List.map_append, List.map_cons, List.map_nil]
+        exact pairwise_snoc _ _ h1 (by simpa using hab)
+      rw [List.map_drop]
+      exact hp.sublist (List.drop_sublist _ _)
+    · simp; omega
+    · rw [List.drop_append_of_le_length hd]; simp
+
+
+/-- r is not above what is stored: whatever is above every stored round is above r -/
+def allBelow (st : Store) (r : Nat) : Prop := ∀ n, st.allLt n → r < n
+
+private theorem allBelow_of_mem (st : Store) (r : Nat) (h : r ∈ st.rounds) : allBelow st r := fun _ hn => hn r h
+
+private theorem allBelow_put (st : Store) (b : Beacon) (hok : StoreOK st) (hl : st.allLt b.round) (r : Nat) (h : allBelow st r) :
+    allBelow (st.put b) r := by
+  intro n hn
+  have h1 := hn b.round (storeOK_put st b hok hl).2
+  have h2 := h b.round hl
+  omega
+
+private theorem allBelow_put_self (st : Store) (b : Beacon) (hok : StoreOK st) (hl : st.allLt b.round) : allBelow (st.put b) b.round :=
+  allBelow_of_mem _ _ (storeOK_put st b hok hl).2
+
+/-- the memdb position after a chain-legal append: still inside the slice, and on a round that is not smaller -/
+private theorem mem_shift (ms : MemState) (b b0 : Beacon) (pos : Nat) (hok : StoreOK (.mem ms)) (hl : (Store.mem ms).allLt b.round)
+    (hp : ms.store[pos]? = some b0) :
+    ∃ b', (Mem.put ms b).store[pos]? = some b' ∧ b0.round ≤ b'.round := by
+  have hab : ∀ x ∈ ms.store, x.round < b.round := fun x hx => hl x.round (by simp [Store.rounds]; exact ⟨x, hx, rfl⟩)
+  obtain ⟨hs, _⟩ := mem_put_above ms b hab
+  obtain ⟨h1, h2, h3⟩ := hok
+  have hlt : pos < ms.store.length := by
+    rcases Nat.lt_or_ge pos ms.store.length with h | h
+    · exact h
+    · simp [List.getElem?_eq_none h] at hp
+  rw [hs, List.getElem?_drop]
+  have hd : ms.store.length + 1 - ms.cap = 0 ∨ ms.store.length + 1 - ms.cap = 1 := by omega
+  rcases hd with hd | hd
+  · rw [hd]; simp only [Nat.zero_add]
+    rw [List.getElem?_append_left hlt]
+    exact ⟨b0, hp, Nat.le_refl _⟩
+  · rw [hd]
+    by_cases hn : 1 + pos < ms.store.length
+    · rw [List.getElem?_append_left hn]
+      refine ⟨ms.store[1 + pos], by simp [hn], ?_⟩
+      have hpw := List.pairwise_iff_getElem.mp h1 pos (1 + pos) (by simpa using hlt) (by simpa using hn) (by omega)
+      have : ms.store[pos] = b0 := by
+        have := List.getElem?_eq_getElem hlt; rw [this] at hp; exact Option.some.inj hp
+      simp only [List.getElem_map] at hpw
+      rw [this] at hpw; omega
+    · have he : 1 + pos = ms.store.length := by omega
+      rw [List.getElem?_append_right (by omega)]
+      refine ⟨b, by simp [he], ?_⟩
+      exact Nat.le_of_lt (hab b0 (List.mem_of_getElem? hp))
+
+/-- what the stream has open, by phase -/
+def NRc (x : Sys) : Prop :=
+  match x.s.phase with
+  | .idle => x.s.queue = [] ∧ x.s.attached = false ∧ x.s.sent = []
+  | .started => x.s.queue = [] ∧ x.s.attached = false ∧ x.s.sent = []
+  | .scanned => x.s.queue = [] ∧ x.s.attached = false
+  | .scanning (.bolt c) => x.s.queue = [] ∧ x.s.attached = false ∧
+      (c.snap.map (·.1)).Pairwise (· < ·) ∧ (∀ p ∈ c.snap, p.2.round = p.1) ∧ (∀ p ∈ c.snap, allBelow x.store p.1) ∧
+      ∃ j p, c.pos = some j ∧ c.snap[j]? = some p ∧ ∀ r ∈ roundsOf x.s.sent, r ≤ p.1
+  | .scanning (.mem pos) => x.s.queue = [] ∧ x.s.attached = false ∧
+      ∃ ms b, x.store = .mem ms ∧ ms.store[pos]? = some b ∧ ∀ r ∈ roundsOf x.s.sent, r ≤ b.round
+  | .live => True
+  | .done _ => True
+
+def NR (x : Sys) : Prop :=
+  StoreOK x.store ∧ (roundsOf x.s.sent ++ jobRounds x.s.queue).Pairwise (· < ·) ∧
+  (∀ r ∈ roundsOf x.s.sent ++ jobRounds x.s.queue, allBelow x.store r) ∧ NRc x
+
+private theorem nr_put (x : Sys) (b : Beacon) (h : NR x) (hl : x.store.allLt b.round) : NR (Sys.step .asIs x (.put b)) := by
+  obtain ⟨hS, hA, hB, hC⟩ := h
+  have hS' := (storeOK_put x.store b hS hl).1
+  have hB' : ∀ r ∈ roundsOf x.s.sent ++ jobRounds x.s.queue, allBelow (x.store.put b) r :=
+    fun r hr => allBelow_put _ _ hS hl r (hB r hr)
+  simp only [Sys.step, Strm.onPut]
+  split
+  · rename_i hatt
+    simp only [Bool.and_eq_true, decide_eq_true_eq] at hatt
+    have hq : jobRounds (x.s.queue ++ [Job.beacon b]) = jobRounds x.s.queue ++ [b.round] := by
+      simp [jobRounds, List.filterMap_append]
+    refine ⟨hS', ?_, ?_, ?_⟩
+    · show (roundsOf x.s.sent ++ jobRounds (x.s.queue ++ [Job.beacon b])).Pairwise (· < ·)
+      rw [hq, ← List.append_assoc]
+      exact pairwise_snoc _ _ hA (fun r hr => hB r hr b.round hl)
+    · intro r hr
+      have hr' : r ∈ (roundsOf x.s.sent ++ jobRounds x.s.queue) ++ [b.round] := by
+        have : r ∈ roundsOf x.s.sent ++ jobRounds (x.s.queue ++ [Job.beacon b]) := hr
+        rw [hq, ← List.append_assoc] at this; exact this
+      rcases List.mem_append.mp hr' with h1 | h1
+      · exact hB' r h1
+      · simp at h1; subst h1; exact allBelow_put_self _ _ hS hl
+    · -- an attached stream is live or done: nothing phase-specific to keep
+      unfold NRc at hC ⊢
+      cases hp : x.s.phase with
+      | idle => simp [hp, hatt.1] at hC
+      | started => simp [hp, hatt.1] at hC
+      | scanned => simp [hp, hatt.1] at hC
+      | scanning c => cases c <;> simp [hp, hatt.1] at hC
+      | live => simp [hp]
+      | done e => simp [hp]
+  · refine ⟨hS', hA, hB', ?_⟩
+    unfold NRc at hC ⊢
+    cases hp : x.s.phase with
+    | idle => simpa [hp] using hC
+    | started => simpa [hp] using hC
+    | scanned => simpa [hp] using hC
+    | live => simp
+    | done e => simp
+    | scanning c =>
+      cases c with
+      | bolt c =>
+        simp only [hp] at hC ⊢
+        obtain ⟨h1, h2, h3, h4, h5, h6⟩ := hC
+        exact ⟨h1, h2, h3, h4, fun p hp' => allBelow_put _ _ hS hl _ (h5 p hp'), h6⟩
+      | mem pos =>
+        simp only [hp] at hC ⊢
+        obtain ⟨h1, h2, ms, b0, hst, hpos, hle⟩ := hC
+        rw [hst] at hS hl
+        obtain ⟨b', hb1, hb2⟩ := mem_shift ms b b0 pos hS hl hpos
+        refine ⟨h1, h2, Mem.put ms b, b', by rw [hst]; rfl, hb1, fun r hr => Nat.le_trans (hle r hr) hb2⟩
+
+private theorem jobRounds_nil : jobRounds [] = [] := rfl
+
+private theorem nr_start (x : Sys) (h : NR x) : NR (Sys.step .asIs x .start) := by
+  obtain ⟨hS, hA, hB, hC⟩ := h
+  simp only [Sys.step, Strm.start]
+  split
+  · rename_i hp
+    simp only [NRc, hp] at hC
+    split
+    · exact ⟨hS, hA, hB, by simp [NRc]⟩
+    · split
+      · exact ⟨hS, hA, hB, by simp [NRc]⟩
+      · split
+        · exact ⟨hS, hA, hB, by simp [NRc, hC.1, hC.2.1]⟩
+        · exact ⟨hS, hA, hB, by simp [NRc, hC.1, hC.2.1, hC.2.2]⟩
+  · exact ⟨hS, hA, hB, hC⟩
+
+private theorem mem_seek_cases (ms : MemState) (pos r : Nat) :
+    (∃ i b, Mem.cursorStep ms pos (.seek r) = (i, .ok b) ∧ ms.store[i]? = some b) ∨
+    (∃ p, Mem.cursorStep ms pos (.seek r) = (p, .noBeacon)) := by
+  simp only [Mem.cursorStep]
+  split
+  · rename_i i _
+    cases hg : ms.store[i]? with
+    | some b => exact Or.inl ⟨i, b, by simp, hg⟩
+    | none => exact Or.inr ⟨i, by simp⟩
+  · exact Or.inr ⟨pos, rfl⟩
+
+private theorem mem_next_cases (ms : MemState) (pos : Nat) :
+    (∃ b, Mem.cursorStep ms pos .next = (pos + 1, .ok b) ∧ ms.store[pos + 1]? = some b) ∨
+    (∃ p, Mem.cursorStep ms pos .next = (p, .noBeacon)) := by
+  simp only [Mem.cursorStep]
+  split
+  · exact Or.inr ⟨pos, rfl⟩
+  · split
+    · exact Or.inr ⟨pos + 1, rfl⟩
+    · cases hg : ms.store[pos + 1]? with
+      | some b => exact Or.inl ⟨b, by simp, rfl⟩
+      | none => exact Or.inr ⟨pos + 1, by simp⟩
+
+private theorem nr_scanOpen (x : Sys) (h : NR x) : NR (Sys.step .asIs x .scanOpen) := by
+  obtain ⟨hS, hA, hB, hC⟩ := h
+  simp only [Sys.step, Strm.scanOpen]
+  split
+  · rename_i hp
+    simp only [NRc, hp] at hC
+    obtain ⟨hq, hat, hsent⟩ := hC
+    split
+    · -- bolt: the cursor is a snapshot of the store as it is now
+      rename_i bs hst
+      simp only [Bolt.cursorStep, Cursor.move]
+      by_cases hi : seekIdx x.s.frm bs < bs.length
+      · simp only [hi, if_true]
+        have hget : bs[seekIdx x.s.frm bs]? = some bs[seekIdx x.s.frm bs] := by simp [hi]
+        rw [hget]
+        simp only [emit]
+        have hmem : bs[seekIdx x.s.frm bs] ∈ bs := List.getElem_mem hi
+        rw [hst] at hS
+        have hlab := hS.2 _ hmem
+        have hbel : ∀ p ∈ bs, allBelow x.store p.1 := by
+          intro p hp'; apply allBelow_of_mem; rw [hst]; simp [Store.rounds]; exact ⟨p.2, hp'⟩
+        refine ⟨by rw [hst]; exact hS, ?_, ?_, ?_⟩
+        · simp [hsent, hq, roundsOf, jobRounds]
+        · intro r hr
+          simp [hsent, hq, roundsOf, jobRounds] at hr
+          subst hr; rw [hlab]; exact hbel _ hmem
+        · simp only [NRc]
+          refine ⟨hq, hat, hS.1, hS.2, hbel, seekIdx x.s.frm bs, _, rfl, hget, ?_⟩
+          intro r hr
+          simp [hsent, roundsOf] at hr
+          subst hr; rw [hlab]; exact Nat.le_refl _
+      · simp only [hi, if_false]
+        exact ⟨hS, hA, hB, by simp [NRc, hq, hat]⟩
+    · -- memdb: a position into the live slice
+      rename_i ms hst
+      rcases mem_seek_cases ms 0 x.s.frm with ⟨i, b, heq, hgi⟩ | ⟨p, heq⟩
+      · rw [heq]
+        simp only [emit]
+        have hmem : b ∈ ms.store := List.mem_of_getElem? hgi
+        have hbel : allBelow x.store b.round := by
+          apply allBelow_of_mem; rw [hst]; simp [Store.rounds]; exact ⟨b, hmem, rfl⟩
+        refine ⟨hS, ?_, ?_, ?_⟩
+        · simp [hsent, hq, roundsOf, jobRounds]
+        · intro r hr
+          simp [hsent, hq, roundsOf, jobRounds] at hr
+          subst hr; exact hbel
+        · simp only [NRc]
+          refine ⟨hq, hat, ms, b, hst, hgi, ?_⟩
+          intro r hr
+          simp [hsent, roundsOf] at hr
+          subst hr; exact Nat.le_refl _
+      · rw [heq]
+        exact ⟨hS, hA, hB, by simp [NRc, hq, hat]⟩
+  · exact ⟨hS, hA, hB, hC⟩
+
+private theorem nr_scanNext (x : Sys) (h : NR x) : NR (Sys.step .asIs x .scanNext) := by
+  obtain ⟨hS, hA, hB, hC⟩ := h
+  simp only [Sys.step, Strm.scanNext]
+  split
+  · -- bolt
+    rename_i c hp
+    simp only [NRc, hp] at hC
+    obtain ⟨hq, hat, hpw, hlab, hbel, j, p, hpos, hgj, hle⟩ := hC
+    obtain ⟨snap, pos⟩ := c
+    simp only at hpos hgj hpw hlab hbel
+    subst hpos
+    simp only [Bolt.cursorStep, Cursor.move]
+    by_cases hn : j + 1 < snap.length
+    · simp only [hn, if_true]
+      have hget : snap[j + 1]? = some snap[j + 1] := by simp [hn]
+      rw [hget]
+      simp only [emit]
+      have hmem : snap[j + 1] ∈ snap := List.getElem_mem hn
+      have hjl : j < snap.length := by omega
+      have hpj : snap[j] = p := by
+        have := List.getElem?_eq_getElem hjl; rw [this] at hgj; exact Option.some.inj hgj
+      have hlt : p.1 < (snap[j + 1]).1 := by
+        have := List.pairwise_iff_getElem.mp hpw j (j + 1) (by simpa using hjl) (by simpa using hn) (by omega)
+        simpa [hpj] using this
+      have hall : ∀ r ∈ roundsOf x.s.sent ++ jobRounds x.s.queue, r < (snap[j + 1]).2.round := by
+        intro r hr
+        rw [hq, jobRounds_nil, List.append_nil] at hr
+        have := hle r hr
+        rw [hlab _ hmem]; omega
+      refine ⟨hS, ?_, ?_, ?_⟩
+      · show (roundsOf (x.s.sent ++ [(snap[j + 1]).2]) ++ jobRounds x.s.queue).Pairwise (· < ·)
+        rw [hq, jobRounds_nil, List.append_nil]
+        simp only [roundsOf, List.map_append, List.map_cons, List.map_nil]
+        apply pairwise_snoc
+        · simpa [hq, jobRounds_nil, roundsOf] using hA
+        · intro r hr; exact hall r (by rw [hq, jobRounds_nil, List.append_nil]; exact hr)
+      · intro r hr
+        have hr' : r ∈ roundsOf (x.s.sent ++ [(snap[j + 1]).2]) ++ jobRounds x.s.queue := hr
+        rw [hq, jobRounds_nil, List.append_nil] at hr'
+        simp only [roundsOf, List.map_append, List.map_cons, List.map_nil, List.mem_append, List.mem_singleton] at hr'
+        rcases hr' with h1 | h1
+        · exact hB r (by rw [hq, jobRounds_nil, List.append_nil]; exact h1)
+        · subst h1; rw [hlab _ hmem]; exact hbel _ hmem
+      · simp only [NRc]
+        refine ⟨hq, hat, hpw, hlab, hbel, j + 1, snap[j + 1], rfl, hget, ?_⟩
+        intro r hr
+        simp only [roundsOf, List.map_append, List.map_cons, List.map_nil, List.mem_append, List.mem_singleton] at hr
+        rcases hr with h1 | h1
+        · have := hle r h1; omega
+        · subst h1; rw [hlab _ hmem]; exact Nat.le_refl _
+    · simp only [hn, if_false]
+      exact ⟨hS, hA, hB, by simp [NRc, hq, hat]⟩
+  · -- memdb
+    rename_i pos hp
+    simp only [NRc, hp] at hC
+    obtain ⟨hq, hat, ms, b0, hst, hgp, hle⟩ := hC
+    rw [hst]
+    simp only
+    rcases mem_next_cases ms pos with ⟨b, heq, hgn⟩ | ⟨p', heq⟩
+    · rw [heq]
+      simp only [emit]
+      have hmem : b ∈ ms.store := List.mem_of_getElem? hgn
+      have hS' := hS
+      rw [hst] at hS'
+      have hlt : b0.round < b.round := by
+        have hl0 : pos < ms.store.length := by
+          rcases Nat.lt_or_ge pos ms.store.length with h | h
+          · exact h
+          · simp [List.getElem?_eq_none h] at hgp
+        have hl1 : pos + 1 < ms.store.length := by
+          rcases Nat.lt_or_ge (pos + 1) ms.store.length with h | h
+          · exact h
+          · simp [List.getElem?_eq_none h] at hgn
+        have := List.pairwise_iff_getElem.mp hS'.1 pos (pos + 1) (by simpa using hl0) (by simpa using hl1) (by omega)
+        have e0 : ms.store[pos] = b0 := by
+          have := List.getElem?_eq_getElem hl0; rw [this] at hgp; exact Option.some.inj hgp
+        have e1 : ms.store[pos + 1] = b := by
+          have := List.getElem?_eq_getElem hl1; rw [this] at hgn; exact Option.some.inj hgn
+        simpa [e0, e1] using this
+      have hbel : allBelow x.store b.round := by
+        apply allBelow_of_mem; rw [hst]; simp [Store.rounds]; exact ⟨b, hmem, rfl⟩
+      refine ⟨by rw [← hst]; exact hS, ?_, ?_, ?_⟩
+      · show (roundsOf (x.s.sent ++ [b]) ++ jobRounds x.s.queue).Pairwise (· < ·)
+        rw [hq, jobRounds_nil, List.append_nil]
+        simp only [roundsOf, List.map_append, List.map_cons, List.map_nil]
+        apply pairwise_snoc
+        · simpa [hq, jobRounds_nil, roundsOf] using hA
+        · intro r hr; have := hle r hr; omega
+      · intro r hr
+        have hr' : r ∈ roundsOf (x.s.sent ++ [b]) ++ jobRounds x.s.queue := hr
+        rw [hq, jobRounds_nil, List.append_nil] at hr'
+        simp only [roundsOf, List.map_append, List.map_cons, List.map_nil, List.mem_append, List.mem_singleton] at hr'
+        rw [← hst]
+        rcases hr' with h1 | h1
+        · exact hB r (by rw [hq, jobRounds_nil, List.append_nil]; exact h1)
+        · subst h1; exact hbel
+      · simp only [NRc]
+        refine ⟨hq, hat, ms, b, rfl, hgn, ?_⟩
+        intro r hr
+        simp only [roundsOf, List.map_append, List.map_cons, List.map_nil, List.mem_append, List.mem_singleton] at hr
+        rcases hr with h1 | h1
+        · have := hle r h1; omega
+        · subst h1; exact Nat.le_refl _
+    · rw [heq]
+      rw [← hst]
+      exact ⟨hS, hA, hB, by simp [NRc, hq, hat]⟩
+  · exact ⟨hS, hA, hB, hC⟩
+
+private theorem nrc_queue_irrelevant (x : Sys) (s' : Strm) (h : NRc x) (hp : s'.phase = x.s.phase) (hs : s'.sent = x.s.sent)
+    (hq : s'.queue = x.s.queue) (ha : s'.attached = x.s.attached) : NRc ⟨x.store, s'⟩ := by
+  unfold NRc at h ⊢
+  simp only [hp, hs, hq, ha]
+  exact h
+
+private theorem nr_rest (x : Sys) (e : Ev) (h : NR x)
+    (he : match e with | .put _ | .start | .scanOpen | .scanNext => False | _ => True) : NR (Sys.step .asIs x e) := by
+  obtain ⟨hS, hA, hB, hC⟩ := h
+  cases e with
+  | put b => cases he
+  | start => cases he
+  | scanOpen => cases he
+  | scanNext => cases he
+  | register =>
+    simp only [Sys.step, Strm.register]
+    split
+    · rename_i hp
+      simp only [NRc, hp] at hC
+      refine ⟨hS, ?_, ?_, by simp [NRc]⟩
+      · simpa [hC.1] using hA
+      · simpa [hC.1] using hB
+    · exact ⟨hS, hA, hB, hC⟩
+  | deliver =>
+    simp only [Sys.step, Strm.deliver]
+    split
+    · split
+      · exact ⟨hS, hA, hB, hC⟩
+      · rename_i hp _ b q hq
+        simp only [emit]
+        have e1 : roundsOf (x.s.sent ++ [b]) ++ jobRounds q = roundsOf x.s.sent ++ jobRounds x.s.queue := by
+          simp [hq, roundsOf, jobRounds, List.filterMap_cons]
+        refine ⟨hS, ?_, ?_, by simp [NRc, hp]⟩
+        · show (roundsOf (x.s.sent ++ [b]) ++ jobRounds q).Pairwise (· < ·)
+          rw [e1]; exact hA
+        · intro r hr
+          have : r ∈ roundsOf (x.s.sent ++ [b]) ++ jobRounds q := hr
+          rw [e1] at this; exact hB r this
+      · rename_i hp _ q hq
+        have e1 : jobRounds q = jobRounds x.s.queue := by simp [hq, jobRounds, List.filterMap_cons]
+        refine ⟨hS, ?_, ?_, by simp [NRc]⟩
+        · show (roundsOf x.s.sent ++ jobRounds q).Pairwise (· < ·)
+          rw [e1]; exact hA
+        · intro r hr
+          have : r ∈ roundsOf x.s.sent ++ jobRounds q := hr
+          rw [e1] at this; exact hB r this
+    · exact ⟨hS, hA, hB, hC⟩
+  | replaced =>
+    simp only [Sys.step, Strm.replaced]
+    split
+    · rename_i hat
+      have e1 : jobRounds (x.s.queue ++ [Job.close]) = jobRounds x.s.queue := by simp [jobRounds, List.filterMap_append]
+      refine ⟨hS, ?_, ?_, ?_⟩
+      · show (roundsOf x.s.sent ++ jobRounds (x.s.queue ++ [Job.close])).Pairwise (· < ·)
+        rw [e1]; exact hA
+      · intro r hr
+        have : r ∈ roundsOf x.s.sent ++ jobRounds (x.s.queue ++ [Job.close]) := hr
+        rw [e1] at this; exact hB r this
+      · unfold NRc at hC ⊢
+        cases hp : x.s.phase with
+        | idle => simp [hp, hat] at hC
+        | started => simp [hp, hat] at hC
+        | scanned => simp [hp, hat] at hC
+        | scanning c => cases c <;> simp [hp, hat] at hC
+        | live => simp [hp]
+        | done e => simp [hp]
+    · exact ⟨hS, hA, hB, hC⟩
+  | detached =>
+    simp only [Sys.step, Strm.detached]
+    refine ⟨hS, hA, hB, ?_⟩
+    unfold NRc at hC ⊢
+    cases hp : x.s.phase with
+    | idle => simp only [hp] at hC ⊢; exact ⟨hC.1, trivial, hC.2.2⟩
+    | started => simp only [hp] at hC ⊢; exact ⟨hC.1, trivial, hC.2.2⟩
+    | scanned => simp only [hp] at hC ⊢; exact ⟨hC.1, trivial⟩
+    | scanning c =>
+      cases c with
+      | bolt c => simp only [hp] at hC ⊢; exact ⟨hC.1, trivial, hC.2.2⟩
+      | mem pos => simp only [hp] at hC ⊢; exact ⟨hC.1, trivial, hC.2.2⟩
+    | live => simp [hp]
+    | done e => simp [hp]
+  | cancel =>
+    simp only [Sys.step, Strm.cancel]
+    split
+    · exact ⟨hS, hA, hB, hC⟩
+    · split
+      · exact ⟨hS, hA, hB, by simp [NRc]⟩
+      · split
+        · exact ⟨hS, hA, hB, by simp [NRc]⟩
+        · exact ⟨hS, hA, hB, by simp [NRc]⟩
+    · exact ⟨hS, hA, hB, by simp [NRc]⟩
+  | sendFail =>
+    simp only [Sys.step, Strm.sendFail]
+    split
+    · exact ⟨hS, hA, hB, by simp [NRc]⟩
+    · split
+      · exact ⟨hS, hA, hB, hC⟩
+      · rename_i b q hq
+        have e1 : roundsOf (x.s.sent ++ [b]) ++ jobRounds q = roundsOf x.s.sent ++ jobRounds x.s.queue := by
+          simp [hq, roundsOf, jobRounds, List.filterMap_cons]
+        refine ⟨hS, ?_, ?_, by simp [NRc]⟩
+        · show (roundsOf (x.s.sent ++ [b]) ++ jobRounds q).Pairwise (· < ·)
+          rw [e1]; exact hA
+        · intro r hr
+          have : r ∈ roundsOf (x.s.sent ++ [b]) ++ jobRounds q := hr
+          rw [e1] at this; exact hB r this
+      · rename_i q hq
+        have e1 : jobRounds q = jobRounds x.s.queue := by simp [hq, jobRounds, List.filterMap_cons]
+        refine ⟨hS, ?_, ?_, by simp [NRc]⟩
+        · show (roundsOf x.s.sent ++ jobRounds q).Pairwise (· < ·)
+          rw [e1]; exact hA
+        · intro r hr
+          have : r ∈ roundsOf x.s.sent ++ jobRounds q := hr
+          rw [e1] at this; exact hB r this
+    · exact ⟨hS, hA, hB, hC⟩
+
+/-- every append of the run is chain-legal at the moment it is made -/
+def legalRun (x : Sys) : List Ev → Prop
+  | [] => True
+  | e :: es => (match e with | .put b => x.store.allLt b.round | _ => True) ∧ legalRun (Sys.step .asIs x e) es
+
+private theorem nr_step (x : Sys) (e : Ev) (h : NR x) (hl : match e with | .put b => x.store.allLt b.round | _ => True) :
+    NR (Sys.step .asIs x e) := by
+  cases e with
+  | put b => exact nr_put x b h hl
+  | start => exact nr_start x h
+  | scanOpen => exact nr_scanOpen x h
+  | scanNext => exact nr_scanNext x h
+  | register => exact nr_rest x _ h trivial
+  | deliver => exact nr_rest x _ h trivial
+  | replaced => exact nr_rest x _ h trivial
+  | detached => exact nr_rest x _ h trivial
+  | cancel => exact nr_rest x _ h trivial
+  | sendFail => exact nr_rest x _ h trivial
+
+private theorem nr_run (es : List Ev) : ∀ (x : Sys), NR x → legalRun x es → NR (Sys.run .asIs x es) := by
+  induction es with
+  | nil => intro x h _; exact h
+  | cons e es ih =>
+    intro x h hl
+    exact ih _ (nr_step x e h hl.1) hl.2
+
+/-- **C11, no repeat (code as it is).** For every schedule — any interleaving of chain-legal appends with the steps of the
+stream and the actions of its environment — on bolt and on memdb (full ring or not), the rounds handed to the client are
+strictly increasing: no round is sent twice, none out of order; and so is everything still queued behind them. -/
+theorem c11_no_repeat (x : Sys) (hS : StoreOK x.store) (hidle : match x.s.phase with | .idle => True | _ => False)
+    (hfresh : x.s.sent = [] ∧ x.s.queue = [] ∧ x.s.attached = false) (es : List Ev) (hleg : legalRun x es) :
+    (roundsOf (Sys.run .asIs x es).s.sent ++ jobRounds (Sys.run .asIs x es).s.queue).Pairwise (· < ·) := by
+  have h0 : NR x := by
+    refine ⟨hS, by simp [hfresh.1, hfresh.2.1, roundsOf, jobRounds], by simp [hfresh.1, hfresh.2.1, roundsOf, jobRounds], ?_⟩
+    unfold NRc
+    cases hp : x.s.phase <;> simp [hp] at hidle ⊢
+    exact ⟨hfresh.2.1, hfresh.2.2, hfresh.1⟩
+  exact (nr_run es x h0 hleg).2.1
+
+
+-- non-vacuity: a full memdb ring, appends in the middle of the scan and after registration
+example :
+    let x : Sys := ⟨memOf 10 9, { frm := 5 }⟩
+    let es : List Ev := [.start, .scanOpen, .put (tb 10), .scanNext, .put (tb 11), .scanNext, .scanNext, .scanNext, .scanNext, .register, .put (tb 12), .deliver]
+    legalRun x es ∧ roundsOf (Sys.run .asIs x es).s.sent = [5, 7, 9, 10, 11, 12] := by
+  refine ⟨?_, by decide⟩
+  simp only [legalRun, and_true, true_and]
+  refine ⟨?_, ?_, ?_⟩ <;> (intro r hr; revert r; decide)
+
 end Drand.Beacon.Stream
